@@ -152,7 +152,8 @@ def scaled_file(rng):
 
     def vf(p, t, n):
         return np.array([rng.randrange(0, 100) for _ in range(n)]).astype(M.TYPES[t][1])
-    return M.build_file(rng, chans, nseg=rng.randint(2, 4), nchunks=(2, 3), values_fn=vf)
+    same_n = len({c_[3] for c_ in chans}) == 1
+    return M.build_file(rng, chans, nseg=rng.randint(2, 4), nchunks=(2, 3), values_fn=vf, inter=same_n and rng.random() < 0.5)
 
 
 def long_file(rng):
